@@ -186,16 +186,22 @@ Definition c03_check (c : c03_case) : bool :=
 
 (* C16 ------------------------------------------------------------------------------------ *)
 (* the symbolic transformer: callbacks on the listed rule names / terminal types build tagged nodes *)
-Definition sym_T (rules toks : list string) : transformer :=
-  mkT (fun n => if mem_string n rules then Some (fun vs => VUser n vs) else None)
-      (fun ty => if mem_string ty toks then Some (fun t v => VUser ty [VTok t v]) else None).
+Fixpoint assoc_str (k : string) (l : list (string * string)) : option string :=
+  match l with [] => None | (k', v) :: r => if String.eqb k k' then Some v else assoc_str k r end.
+
+(* rules / toks: (name the callback is attached under, tag of the value it builds).  The tag records which
+   callback object ran and the node name it was handed (tree.data / the wrapper's data), as the generated
+   python callbacks do, so a callback invoked under the wrong name is visible *)
+Definition sym_T (rules toks : list (string * string)) : transformer :=
+  mkT (fun n => match assoc_str n rules with Some tag => Some (fun vs => VUser tag vs) | None => None end)
+      (fun ty => match assoc_str ty toks with Some tag => Some (fun t v => VUser tag [VTok t v]) | None => None end).
 
 Definition log_eqb (a b : log) : bool := list_eqb path_eqb a b.
 
 (* one tree with the observed value (the same for the four classes), the observed call log of
    Transformer / Transformer_NonRecursive / Transformer_InPlaceRecursive (the same list for the
    three) and the observed call log of Transformer_InPlace *)
-Definition tr_case := (list string * list string * bool * stree * value * log * log)%type.
+Definition tr_case := (list (string * string) * list (string * string) * bool * stree * value * log * log)%type.
 
 Definition tr_check (c : tr_case) : bool :=
   let '(rules, toks, vt, t, v, lpost, lip) := c in
@@ -206,7 +212,7 @@ Definition tr_check (c : tr_case) : bool :=
   && ok (transform_ip T vt t) lip && ok (Some (transform_ipr T vt t)) lpost.
 
 (* embedded: derivation, the value lark returned with transformer=T, the tree without *)
-Definition emb_case := (list string * list string * bool * bool * dtree * value * stree)%type.
+Definition emb_case := (list (string * string) * list (string * string) * bool * bool * dtree * value * stree)%type.
 
 Definition emb_check (c : emb_case) : bool :=
   let '(rules, toks, vt, mp, d, v, t) := c in
